@@ -159,6 +159,12 @@ def cliEeParams (cn : Bytes) (sans : List SanType) (client server : Bool) : Cert
 
 def pemSuffix : Bytes := [46, 112, 101, 109]                       -- ".pem"
 def keyPemSuffix : Bytes := [46, 107, 101, 121, 46, 112, 101, 109] -- ".key.pem"
+def keySuffix : Bytes := [46, 107, 101, 121]                       -- ".key"
+
+/-- main.rs:12-16: `<name>.pem` and `<name>.key.pem` of the two base names have to be four
+    different files -/
+def namesCollide (cert ca : Bytes) : Bool :=
+  cert == ca || cert == ca ++ keySuffix || ca == cert ++ keySuffix
 
 structure CliPlan where
   ca : CertParams
@@ -174,7 +180,8 @@ def cliRun (aws : Bool) (o : CliOptions) : Except Err CliPlan :=
   match classifySans o.sans with
   | .error e => .error e
   | .ok sans =>
-  -- main.rs:12-17: the CA is configured (country must be a PrintableString) and built
+  if namesCollide o.certFileName o.caFileName then .error (.other "same-file") else
+  -- main.rs:18-23: the CA is configured (country must be a PrintableString) and built
   if !o.countryName.all printableByte then .error .invalidAsn1String else
   match cliKeyAlg aws o.alg with
   | none => .error .keyGenerationUnavailable
